@@ -273,7 +273,12 @@ class Scenario:
         for f in oracle.jobs(self.db):
             creating_same = b_or(creating_same, b_and(oracle.i_eq(j, f.j), f.present, f.in_state('Creating'),
                                                       b_not(f.attempt_id.n), oracle.i_eq(f.attempt_id.v, a)))
-        self._assume(b_or(b_and(self.selected_earlier(j), b_not(pres)), creating_same))
+        # ... or the worker's report about this very attempt reached the database before the driver's CALL schedule_job
+        # (the driver POSTs the job to the worker first): see op_early_started / op_early_complete
+        early_same = False
+        for (j2, a2, i2) in getattr(self, 'early', []):
+            early_same = b_or(early_same, b_and(oracle.i_eq(j, j2), oracle.i_eq(a, a2), oracle.i_eq(i, i2)))
+        self._assume(b_or(b_and(self.selected_earlier(j), b_not(pres)), creating_same, early_same))
         # the scheduler only places jobs on instances it holds as active (schedule_job asserts it); the database row may
         # meanwhile have been deactivated, but it cannot be pending again
         st = self._inst_state(i)
@@ -305,6 +310,35 @@ class Scenario:
 
     def op_complete(self, tag):
         j, a, i = self._existing_attempt(tag)
+        st = self.inp.int(f'{tag}_new_state', options=oracle.TERMINAL)
+        t0, t1, ts = self.inp.int(f'{tag}_start'), self.inp.int(f'{tag}_end'), self.inp.int(f'{tag}_ts')
+        reason = self.inp.int(f'{tag}_reason', options=[code(r) for r in model.REASONS])
+        self.last_args = {'job': j, 'att': a, 'inst': i, 'new_state': st}
+        self.begin('mark_job_complete')
+        return self.w.call('mark_job_complete', [1, V(j), V(a), V(i), V(st), NULL, V(t0), V(t1), V(reason), V(ts)])
+
+    def _early(self, tag):
+        """a worker report that overtakes the driver: the scheduler selected the job and POSTed it to an (active or
+        meanwhile deactivated) instance with a fresh attempt id, and the worker's job_started / job_complete for that attempt is
+        processed before the driver's CALL schedule_job"""
+        j, a, i = self._job(tag), self._att(tag), self._inst(tag)
+        pres, _ = self._attempt_facts(j, a)
+        self._assume(b_and(self.selected_earlier(j), b_not(pres)))
+        self._assume(b_not(oracle.i_eq(self._inst_state(i), code('pending'))))
+        if not hasattr(self, 'early'):
+            self.early = []
+        self.early.append((j, a, i))
+        return j, a, i
+
+    def op_early_started(self, tag):
+        j, a, i = self._early(tag)
+        t = self.inp.int(f'{tag}_time')
+        self.last_args = {'job': j, 'att': a, 'inst': i}
+        self.begin('mark_job_started')
+        return self.w.call('mark_job_started', [1, V(j), V(a), V(i), V(t)])
+
+    def op_early_complete(self, tag):
+        j, a, i = self._early(tag)
         st = self.inp.int(f'{tag}_new_state', options=oracle.TERMINAL)
         t0, t1, ts = self.inp.int(f'{tag}_start'), self.inp.int(f'{tag}_end'), self.inp.int(f'{tag}_ts')
         reason = self.inp.int(f'{tag}_reason', options=[code(r) for r in model.REASONS])
@@ -497,7 +531,7 @@ class Scenario:
         'u2_create': op_update2_create, 'u2_jobs': op_update2_jobs, 'u2_commit': op_update2_commit, 'u2_groups': op_update2_groups, 'u2_group1': op_update2_group1, 'u2_group2': op_update2_group2, 'u3_create': op_update3_create, 'u3_jobs': op_update3_jobs,
         'u3_commit': op_update3_commit, 'dup_create_batch': op_dup_create_batch,
         'dup_jobs1': op_dup_jobs1, 'commit1': op_commit1, 'cancel_ready': op_cancel_ready, 'cleanup_staging': op_cleanup_staging,
-        'cleanup_cancellable': op_cleanup_cancellable,
+        'cleanup_cancellable': op_cleanup_cancellable, 'early_started': op_early_started, 'early_complete': op_early_complete,
     }
 
     def apply(self, kind, idx):
